@@ -95,17 +95,19 @@ Failing == IF ev.name = "Init" \/ ev.halt
            THEN (IF ev.halt THEN {"C13_NoHalt"} ELSE {})
            ELSE {c \in DOMAIN Clauses : ~Clauses[c]}
 
-(* Discriminator printed with a failure: "f4" when every failing fee clause is
-   exactly the F4 pattern (the _ModF4 variants hold), "f21" when the failing
-   schedule clause is exactly the F21 pattern; otherwise the specification's
-   own reason for the step. *)
+(* Discriminator printed with a failure: f4 = every failing fee clause is
+   exactly the F4 pattern (the _ModF4 variants hold); f21 / f20 = the failing
+   schedule / queue clauses are exactly the F21 / F20 pattern; spec = the
+   specification's own reason for the step. *)
 IsF4 == /\ Failing \cap {"C07_Charge", "C07_RequestEscrow"} # {}
         /\ C07_Charge_ModF4(pre, ev, st) /\ C07_RequestEscrow_ModF4(st, gh)
-IsF21 == "C08_Schedule" \in Failing /\ C08_Schedule_ModF21(pre, ev, st, gpre)
-WhyOf == IF IsF4 /\ IsF21 THEN "f4+f21"
-         ELSE IF IsF4 THEN "f4"
-         ELSE IF IsF21 THEN "f21"
-         ELSE Apply(pre, ev).why
+SchedFails == "C08_Schedule" \in Failing
+IsF21 == SchedFails /\ ~C08_Schedule_ModF20(pre, ev, st, gpre) /\ C08_Schedule_ModF(pre, ev, st, gpre)
+IsF20 == \/ SchedFails /\ ~C08_Schedule_ModF21(pre, ev, st, gpre) /\ C08_Schedule_ModF(pre, ev, st, gpre)
+         \/ /\ Failing \cap {"C13_QueueSound", "C13_OnceOnTime"} # {}
+            /\ C13_QueueSound_ModF20(st, gh) /\ C13_OnceOnTime_ModF20(pre, ev, st, gh)
+(* a record, so that known-finding entries can match on "why.f4" etc. *)
+WhyOf == [f4 |-> IsF4, f20 |-> IsF20, f21 |-> IsF21, spec |-> Apply(pre, ev).why]
 
 (* Evaluated by TLC in every state; always TRUE, reports as a side effect *)
 Monitor == Failing = {} \/ PrintT(<<"CLAUSE-FAIL", l - 1, Failing, WhyOf>>)
